@@ -475,7 +475,63 @@ def check_segments(run, case, crec, want, idx, clause, key, where, tol=0.0):
               (where, clause, "count %d vs %d" % (len(crec.segs[0][1]) if crec.segs else -1, len(want))), key=key)
 
 
-KINDS = {"seq": k_seq}
+def k_cli_time(run, case):
+    """
+    evo_traj --plot_relative_time: the time axes of the per-axis, roll/pitch/yaw and speed figures
+    show each trajectory's own stamps (after --t_offset) minus the start time - the reference's
+    first stamp, or without --ref the lowest first stamp of the trajectories as they are plotted.
+    """
+    import shutil
+    import matplotlib.pyplot as plt
+    from vmon import cli
+    rng = run.rng(case)
+    work = os.path.join(os.environ.get("VMON_WORK", "."), "c20t_%d" % case["rs"][-1])
+    os.makedirs(work, exist_ok=True)
+    try:
+        k = int(rng.integers(1, 3))
+        names, stamps = [], {}
+        base_t = float(rng.integers(10, 2000))
+        for i in range(k + 1):
+            n = int(rng.integers(5, 25))
+            arr = gen.traj_arrays(rng, n, stamp_cls="small")
+            t = base_t + float(rng.uniform(0, 20)) + np.cumsum(rng.uniform(0.05, 0.5, size=n))
+            name = "gt.txt" if i == k else "traj_%d.txt" % i
+            open(os.path.join(work, name), "w").write(rm.write_tum_text(t, arr["p"], gen.quats_of(arr["R"])))
+            stamps[name] = rm.parse_tum(open(os.path.join(work, name)).read())[0]
+            names.append(name)
+        use_ref = bool(rng.random() < .4)
+        offset = float("%.6f" % rng.uniform(-30, 30)) if rng.random() < .6 else 0.0
+        argv = ["tum"] + names[:k] + (["--ref", "gt.txt"] if use_ref else []) + ["--plot_relative_time", "--plot", "--no_warnings"]
+        if offset:
+            argv += ["--t_offset", "%.6f" % offset]
+        plt.close("all")
+        res = cli.run_cli("traj", argv, cwd=work, keep_figures=True)
+        run.seen(case, core.digest(argv, [stamps[nm][0] for nm in names]), cls=["evo_traj --plot_relative_time" + (" --t_offset" if offset else "") +
+                                                                              (" --ref" if use_ref else "")],
+                 sample={"argv": argv, "exit": res.exit})
+        if not run.check(res.exc is None and res.exit == 0, "evo_traj plots", case, "evo_traj %s failed: %r" % (argv, res.exc), key="cli-time:failed"):
+            return
+        shown = {nm: stamps[nm] + offset for nm in names[:k]}
+        start = float(stamps["gt.txt"][0]) if use_ref else min(float(v[0]) for v in shown.values())
+        want_first = sorted(float(v[0]) - start for v in shown.values()) + ([0.0] if use_ref else [])
+        judged = 0
+        for num in plt.get_fignums():
+            fig = plt.figure(num)
+            axes = fig.get_axes()
+            if len(axes) == 3 and all(len(a.lines) >= k for a in axes) and "t" in axes[2].get_xlabel():
+                got_first = sorted(float(np.asarray(ln.get_xdata(), dtype=float)[0]) for ln in axes[0].lines)
+                judged += 1
+                run.check(len(got_first) == len(want_first) and bool(np.all(np.abs(np.array(got_first) - np.array(sorted(want_first))) <= 1e-6)),
+                          "relative time axes start at the trajectories' own (offset) stamps minus the start time", case,
+                          "evo_traj %s: the time axes start at %s, expected %s" % (argv[1:], got_first, sorted(want_first)),
+                          key="cli-time:wrong-zero")
+        run.check(judged >= 1, "a time-series figure of evo_traj was found", case, "no xyz / rpy figure found", key="cli-time:no-figure")
+    finally:
+        plt.close("all")
+        shutil.rmtree(work, ignore_errors=True)
+
+
+KINDS = {"seq": k_seq, "cli_time": k_cli_time}
 
 
 def main(run):
@@ -493,6 +549,8 @@ def main(run):
         k_seq(run, run.case("seq", 10**6 + i, **corpus[i]))
     for i in run.mine({"quick": 160, "thorough": 3000}[run.tier]):
         k_seq(run, run.case("seq", i))
+    for i in run.mine({"quick": 24, "thorough": 300}[run.tier]):
+        k_cli_time(run, run.case("cli_time", i))
     run.need("trajectory line drawn at the trajectory's own coordinates of the mode's axes",
              "colour-mapped segment k joins pose k and k+1", "start/end markers at the first/last pose",
              "correspondence edge k joins pose k of both trajectories",
